@@ -497,6 +497,11 @@ func (ms *Modules) Process() []error {
 			}
 		}
 	}
+	// Applying a deviation can leave an error on the node it changes
+	// (removing a child that is already gone, say).
+	for _, m := range all {
+		errs = append(errs, ToEntry(m).GetErrors()...)
+	}
 
 	return errorSort(errs)
 }
